@@ -59,6 +59,13 @@ func verifC08CLI(c *drv.Ctx) {
 		cases = append(cases, tc{name: fmt.Sprintf("8 targets, write %d to stdout fails once (ENOSPC), queues of one slot", nth), args: []string{"-p", "5", "-w", "2", "10.0.1.0/29"}, want: eight, failOut: nth})
 		cases = append(cases, tc{name: fmt.Sprintf("8 targets, plain output, write %d to stdout fails once (ENOSPC), queues of one slot", nth), args: []string{"-p", "5", "-w", "2", "10.0.1.0/29"}, want: eight, failOut: nth, plain: true})
 	}
+	sixteen := map[string]int{}
+	for i := 0; i < 16; i++ {
+		sixteen[fmt.Sprintf("10.0.1.%d:5", i)] = 1
+	}
+	for _, plain := range []bool{false, true} {
+		cases = append(cases, tc{name: fmt.Sprintf("16 targets, plain=%v, every other write to stdout fails, 6 times in all (an output that works on and off), queues of one slot", plain), args: []string{"-p", "5", "-w", "2", "10.0.1.0/28"}, want: sixteen, failOut: -6, plain: plain})
+	}
 	c.R.Rule = "the three application-scan commands (socks, docker, elastic) end to end with every probe positive, for target specifications that denote a target more than once (pairs file with repeats, overlapping port ranges, address files with repeats, stdin) and for 1 and 1000 workers: " +
 		"the probes seen by the recording scanner = the specification with multiplicity, and stdout = exactly one JSON record per probe. non-trivial = case"
 	idx := 0
@@ -83,14 +90,17 @@ func verifC08CLI(c *drv.Ctx) {
 				}
 			}
 			var lostLine string
-			if k.failOut > 0 {
+			var lostLines []string
+			if k.failOut != 0 {
 				sc.CapMap = func(int) int { return 1 }
-				nth := k.failOut - 1
+				nth, many := k.failOut-1, -k.failOut
 				sc.World = func(w *zzvenv.World) {
 					vDefaultWorld(w)
 					w.StdoutErr = func(n int, p []byte) error {
-						if n == nth {
+						// failOut > 0: that one write fails; failOut < 0: every other write fails, -failOut times in all
+						if n == nth || (many > 0 && n%2 == 0 && n/2 < many) {
 							lostLine = string(p)
+							lostLines = append(lostLines, lostLine)
 							return syscall.ENOSPC
 						}
 						return nil
@@ -154,23 +164,25 @@ func verifC08CLI(c *drv.Ctx) {
 				c.Fail(key("record"), fmt.Sprintf("%s: output line is not a record: %q", name, bad), rep)
 				continue
 			}
-			if k.failOut > 0 {
-				// the record whose write failed is lost (and only that one); the failure is reported
+			if k.failOut != 0 {
+				// the records whose writes failed are lost (and only those); in plain mode each failure is reported
 				lost := 0
-				for t, n := range k.want {
-					if recs[t] == n-1 && (strings.Contains(lostLine, `"ip":"`+strings.Split(t, ":")[0]+`"`) || strings.Contains(lostLine, " "+strings.Split(t, ":")[0]+" ")) {
-						recs[t]++
-						lost++
+				for _, ll := range lostLines {
+					for t, n := range k.want {
+						if recs[t] == n-1 && (strings.Contains(ll, `"ip":"`+strings.Split(t, ":")[0]+`"`) || strings.Contains(ll, " "+strings.Split(t, ":")[0]+" ")) {
+							recs[t]++
+							lost++
+						}
 					}
 				}
 				errs := run.vErrRecords()
-				if d := c08diff(recs, k.want); d != "" || lost != 1 {
-					c.Fail(key("records-after-write-error"), fmt.Sprintf("%s: the write of %q failed once with ENOSPC; every other probe's record is still due (later writes succeed); records differ: %s (stdout %q)", name, lostLine, d, lines), rep)
+				if d := c08diff(recs, k.want); d != "" || lost != len(lostLines) || len(lostLines) == 0 {
+					c.Fail(key("records-after-write-error"), fmt.Sprintf("%s: %d writes failed with ENOSPC (the last one: %q); every other probe's record is still due (the other writes succeed); records differ: %s (stdout %q)", name, len(lostLines), lostLine, d, lines), rep)
 					continue
 				}
 				// (whether the failed write is reported is not part of the property: the JSON writer does not)
-				if k.plain && (len(errs) != 1 || !strings.Contains(errs[0], "no space left")) {
-					c.Fail(key("write-error-report"), fmt.Sprintf("%s: one write to stdout failed with ENOSPC: the plain writer hands the failure to the logger, one error record is due, got %q", name, errs), rep)
+				if k.plain && (len(errs) != len(lostLines) || !strings.Contains(errs[0], "no space left")) {
+					c.Fail(key("write-error-report"), fmt.Sprintf("%s: %d writes to stdout failed with ENOSPC: the plain writer hands each failure to the logger, as many error records are due, got %q", name, len(lostLines), errs), rep)
 					continue
 				}
 				c.Outcome(fmt.Sprintf("%s/%d/write-error", cmd, len(lines)))
